@@ -160,6 +160,56 @@ func runC07(c *an.Ctx) {
 		}
 		c.Check(okLoop, "C07.a", "loop-serves-triggers", "the sync loop runs a sync for every trigger and exits only when its context is done", syncLoop, nil, "", nil)
 	}
+	// Start: a Syncer that reports a successful start has launched the sync loop and has opened the
+	// gate (`started`) the gossip validator waits behind
+	if start := p.Method("sync", "Syncer", "Start"); c.Need(start, "C07.a", "sync.(*Syncer).Start") {
+		st, sf := c.T(start), c.F(start)
+		fl := an.Flow{Fn: start}
+		isLoopGo := func(in ssa.Instruction) bool {
+			g, ok := in.(*ssa.Go)
+			return ok && an.StaticCallee(&g.Call) == syncLoop
+		}
+		opensGate := false
+		an.Instrs(start, func(in ssa.Instruction) {
+			if call, ok := in.(*ssa.Call); ok {
+				if b, isB := call.Call.Value.(*ssa.Builtin); isB && b.Name() == "close" && isRecvField(st, call.Call.Args[0], "started") {
+					opensGate = true
+				}
+			}
+		})
+		isGateSelect := func(in ssa.Instruction) bool {
+			sel, ok := in.(*ssa.Select)
+			if !ok {
+				return false
+			}
+			for _, s := range sel.States {
+				if s.Send == nil && isRecvField(st, s.Chan, "started") {
+					return true
+				}
+			}
+			return false
+		}
+		isGate := func(in ssa.Instruction) bool {
+			if isGateSelect(in) {
+				return true
+			}
+			call, ok := in.(*ssa.Call)
+			if !ok {
+				return false
+			}
+			b, isB := call.Call.Value.(*ssa.Builtin)
+			return isB && b.Name() == "close" && isRecvField(st, call.Call.Args[0], "started")
+		}
+		n := 0
+		for _, r := range sf.Returns() {
+			if st.ErrShape(errResult(r)) != "nil" {
+				continue
+			}
+			n++
+			c.Check(fl.MustPrecedeAny(isLoopGo, r) && opensGate && fl.MustPrecede(isGate, r), "C07.a", "start-launches-loop", "Start returns nil only after it launched the sync loop and opened the `started` gate of the gossip validator", start, r, "", nil)
+		}
+		c.Min("C07.a", "successful returns of Start", n, 1)
+	}
 
 	// --- C07.b progress of the request loop
 	{
